@@ -298,7 +298,17 @@ def apply_defaults(db, model, rec):
         if d.is_scalar:
             rec[key] = d.arg
         elif d.is_callable:
-            rec[key] = d.arg(None)
+            rec[key] = d.arg(_DefaultCtx(rec))
+
+
+class _DefaultCtx(object):
+    """what a context-sensitive column default sees"""
+
+    def __init__(self, rec):
+        self.current_parameters = rec
+
+    def get_current_parameters(self, isolate_multiinsert_groups=True):
+        return self.current_parameters
 
 
 @functools.lru_cache(maxsize=None)
@@ -420,6 +430,43 @@ class Session(object):
 
     def merge(self, obj, load=True):
         return obj
+
+    def execute(self, stmt, *a, **k):
+        """Core DELETE / UPDATE statements (table.delete().where(...))."""
+        from sqlalchemy.sql import dml
+        model = None
+        for m in all_models():
+            if m.__table__ is stmt.table:
+                model = m
+        if model is None:
+            raise symx.ProxyMisuse('execute on unknown table %s' % stmt.table)
+        self._hand_off('execute')
+        self.flush()
+        n = 0
+        recs = [r for r in self.visible(model) if admits(stmt.whereclause, r)]
+        for r in recs:
+            key = (model, r['id'])
+            self._lock(key)
+            cur = self._visible_rec(key)
+            if cur is None or not admits(stmt.whereclause, cur):
+                continue
+            if isinstance(stmt, dml.Delete):
+                self.delete_record(model, r['id'])
+            elif isinstance(stmt, dml.Update):
+                vals = {(c if isinstance(c, str) else c.key):
+                        Evaluator(cur).val(v)
+                        for c, v in stmt._values.items()}
+                self.write_record(model, r['id'], vals)
+            else:
+                raise symx.ProxyMisuse('execute(%s)' % type(stmt).__name__)
+            n += 1
+
+        class R(object):
+            rowcount = n
+        self.db.log.append((self.name, 'execute',
+                            '%s %s x%d' % (type(stmt).__name__,
+                                           model.__name__, n)))
+        return R()
 
     # -- flush / commit ---------------------------------------------------
     def flush(self, objects=None):
@@ -558,6 +605,10 @@ class Session(object):
         mapper = sa.inspect(model).mapper
         inst = mapper.class_manager.new_instance()
         self._adopt(inst, model, rec)
+        for prop in mapper.relationships:
+            if prop.lazy == 'joined':
+                # eager: usable after the session is gone
+                inst.__dict__['_rel_' + prop.key] = getattr(inst, prop.key)
         return inst
 
     def _reload(self, inst):
@@ -835,7 +886,13 @@ def q_all(q):
 
 def q_first(q):
     r = q_all(q)
-    return r[0] if r else None
+    if not r:
+        return None
+    if len(r) > 1 and not list(getattr(q, '_order_by_clauses', ()) or ()):
+        # SELECT ... LIMIT 1 without ORDER BY: the database may return any
+        # of the matching rows
+        return symx.choice('first_of_%d' % len(r), r)
+    return r[0]
 
 
 def q_one(q):
@@ -972,6 +1029,8 @@ class _LazyRel(object):
             return inst.__dict__.get('_rel_' + self.key,
                                      [] if self.uselist else None)
         ses = m.session
+        if ses is None and ('_rel_' + self.key) in inst.__dict__:
+            return inst.__dict__['_rel_' + self.key]
         if ses is None:
             from sqlalchemy.orm import exc as orm_exc
             raise orm_exc.DetachedInstanceError(
